@@ -18,7 +18,9 @@
 (*   k = "R"   range; lopen / hopen say which end is open ("..5", "3..");  *)
 (*             an open end has the number field 0                          *)
 (*   k = "U"   the unclaimed marker ".."                                   *)
-(*   k = "BAD" text outside the DSP0004 entry grammar                      *)
+(*   k = "BAD" text outside the DSP0004 entry grammar; nt = its lexeme      *)
+(*             class (BadClasses), lo / hi / lopen / hopen = the entry a    *)
+(*             too lenient reader would take it for (0 / FALSE for "junk") *)
 (*   nt        notation tag (dec/bin/oct/hex/oct0); irrelevant here: every *)
 (*             DSP0004 notation denotes the same number                    *)
 (* Numbers are integers of a *virtual* type tmin..tmax: for the 8/16-bit   *)
@@ -45,8 +47,12 @@
 (*    exceptions and invented strings are rejected then)                   *)
 (*  - reversed literal ranges, entries outside the type, ".." as the only  *)
 (*    entry (forbidden by DSP0004): table or ModelError/ValueError         *)
-(*  - duplicate Values strings: tobinary()/items() are only pinned down    *)
-(*    for strings that occur once ("where unambiguous")                    *)
+(*  - duplicate Values strings: tobinary() is only pinned down for strings *)
+(*    that occur once ("where unambiguous": any entry carrying the string  *)
+(*    is accepted); items() lists EVERY entry, also those whose Values     *)
+(*    string occurs more than once (values_default filling two entries)    *)
+(* Values strings are compared as strings: strings that differ only in    *)
+(* lexical case are different strings (TLA+ string equality).             *)
 (***************************************************************************)
 EXTENDS Integers, Sequences, FiniteSets
 
@@ -55,6 +61,17 @@ Rng(q) == {q[i] : i \in DOMAIN q}
 MinOf(S) == CHOOSE x \in S : \A y \in S : x <= y
 
 InitState == 0
+
+(* lexeme classes of a malformed entry (nt of an entry with k = "BAD").    *)
+(* DSP0004 integerValue is US-ASCII only, one token, no white space:       *)
+(*   "junk"   anything else (letters, wrong radix digits, three bounds ..) *)
+(*   "udigit" a decimal number / bound written with Unicode decimal digits *)
+(*            (category Nd) of which at least one is not US-ASCII          *)
+(*   "nl"     a well-formed entry followed by one line feed                *)
+(*   "ws"     a well-formed number / bound with leading or trailing blanks *)
+(*   "under"  decimal digits grouped by "_" (Python int() literal syntax)  *)
+(* Whatever the class: the pair is Malformed (below).                      *)
+BadClasses == {"junk", "udigit", "nl", "ws", "under"}
 Apply(s, e) == s
 
 (* ---- the qualifier pair after defaulting and size reconciliation ------- *)
@@ -189,6 +206,13 @@ ItemsOK(m, rho, vals, e) ==
      /\ \A j \in DOMAIN want : /\ got[j].s = vals[want[j]]
                                 /\ BinOf(m, rho, want[j], got[j])
 
+(* items() lists every entry, in qualifier order (also the entries whose   *)
+(* Values string occurs more than once)                                    *)
+ItemsAllOK(m, rho, vals, e) ==
+  /\ Len(e.items) = Len(vals)
+  /\ \A j \in DOMAIN vals : /\ e.items[j].s = vals[j]
+                            /\ BinOf(m, rho, j, e.items[j])
+
 (* v maps to s  =>  v is a member of tobinary(s)  (s occurring once) *)
 RoundTripOK(vals, e) ==
   LET ustr == {vals[i] : i \in Once(vals)} IN
@@ -251,6 +275,8 @@ Fails(s, e) ==
           \cup F("Tovalues.EqualsClaims", tvR # {})
           \cup F("Tobinary.EntryOfString", tbR # {})
           \cup F("Items.EntriesInQualifierOrder", itR # {})
+          \cup F("Items.EntriesOfRepeatedStringsListed",
+                  itR = {} \/ \E rho \in itR : ItemsAllOK(m, rho, vals, e))
           \cup F("OneResolution", tvR = {} \/ tbR = {} \/ itR = {}
                                    \/ (tvR \cap tbR \cap itR) # {})
           \cup F("RoundTrip.ValueIsMemberOfTobinary", RoundTripOK(vals, e))
